@@ -12,6 +12,7 @@ import Midgard.Proofs.Decimal
 import Midgard.Proofs.RinexNavFile
 import Midgard.Proofs.RinexNavDispatch
 import Midgard.Proofs.RinexNavNoCR
+import Midgard.Spec.RinexNavPost
 
 namespace Midgard.Props.C12
 open Midgard.RinexNav Midgard.Generated.RinexNav Midgard.FixedCol Midgard.Text Midgard.Decimal
@@ -342,12 +343,6 @@ theorem record_appends (T : Tables) (v2 : Option Str) (st st' : St) (l1 : Str) (
         simp only [recordKeys, List.count_append]
         omega
 
-/-- the names of orbit lines `2 … n+1` of the table -/
-def keysOfIdx (T : Tables) (n : Nat) : List String :=
-  (List.range n).flatMap fun i => match T.lines.find? (fun (l : LineDef) => l.num = i + 2) with
-    | some ld => ld.fields.map (·.name)
-    | Option.none => []
-
 theorem keysOfLines_eq (T : Tables) (nl : List (Nat × Str)) :
     keysOfLines T nl = (nl.map (·.1)).flatMap fun i => match T.lines.find? (fun (l : LineDef) => l.num = i + 2) with
       | some ld => ld.fields.map (·.name)
@@ -358,9 +353,6 @@ theorem keysOfLines_zip (T : Tables) (rest : List Str) :
     keysOfLines T ((List.range rest.length).zip rest) = keysOfIdx T rest.length := by
   rw [keysOfLines_eq, List.map_fst_zip (by simp)]
   rfl
-
-/-- all 38 column names one record feeds, as the table gives them -/
-def recordNames (T : Tables) : List String := ["system", "satellite"] ++ clockNames ++ keysOfIdx T 7
 
 def nodupL : List String → Bool
   | [] => true
@@ -616,9 +608,6 @@ theorem col_append (d : Cols) (k : String) (v : Cell) (k' : String) :
         simp [append, col, hk]
       · simp only [append, hk, if_false, col, h]
         exact ih
-
-/-- the value a record contributes to column `k` -/
-def valOf (r : NavRec) (k : String) : Option Cell := ((kvOf r).find? (·.1 = k)).map (·.2)
 
 theorem kvOf_keys (r : NavRec) : (kvOf r).map (·.1) = recordNames v3 := by
   rw [kvOf_eq]
@@ -1043,17 +1032,6 @@ theorem maskCol_map (per : List (String × String)) (n : String) (rs : List NavR
   rw [List.zip_map', List.map_map]
   rfl
 
-/-- the per-record meaning of one round of renaming -/
-def semStep (sem : String → Option (NavRec → Cell)) (field : String) (per : List (String × String)) :
-    String → Option (NavRec → Cell) := fun k =>
-  if k = field then Option.none
-  else if k ∈ per.map (·.2) then
-    match sem "system", sem field with
-    | some sf, some vf => some fun r =>
-        if ((per.filter (·.2 = k)).map (·.1)).contains (asString (cellStr (sf r))) then vf r else .none
-    | _, _ => Option.none
-  else sem k
-
 theorem renStep_rows (rs : List NavRec) (d : Cols) (sem : String → Option (NavRec → Cell)) (field : String)
     (per : List (String × String)) (h : Rows rs d sem) (hs : (sem "system").isSome = true) (hf : (sem field).isSome = true) :
     ∃ d', renStep d field per = some d' ∧ Rows rs d' (semStep sem field per) := by
@@ -1076,11 +1054,6 @@ theorem renStep_rows (rs : List NavRec) (d : Cols) (sem : String → Option (Nav
       simp only [hsf, hvf, Option.map_some, maskCol_map]
     · rw [if_neg (fun hc => hm ((mem_newNames per k).mp hc)), if_neg hm]
       exact h k
-
-/-- the per-record meaning of `rename3` -/
-def semRename (sem : String → Option (NavRec → Cell)) : SysNames → (String → Option (NavRec → Cell))
-  | [] => sem
-  | (f, p) :: rest => semRename (semStep sem f p) rest
 
 /-- the columns every round reads are there -/
 def okRen (sem : String → Option (NavRec → Cell)) : SysNames → Bool
@@ -1111,21 +1084,6 @@ theorem mapM_eq_some_map {α β : Type} (f : α → Option β) (g : α → β) :
     intro h
     simp only [List.mapM_cons, h a (by simp), ih (fun x hx => h x (by simp [hx])), Option.bind_eq_bind, Option.bind_some,
       Option.pure_def, List.map_cons]
-
-/-- the per-record meaning of the time correction: four columns are replaced, every other one is kept -/
-def semTime (T : Tables) (fileSys : String) (sem : String → Option (NavRec → Cell)) (sf : NavRec → Cell)
-    (toeQ ttxQ wkQ : NavRec → Rat) : String → Option (NavRec → Cell) :=
-  let mixed : Bool := decide (fileSys = "M" ∨ fileSys = "C")
-  let offS : NavRec → Int := fun r => if mixed then lookupI T.secOffset (asString (cellStr (sf r))) else 0
-  let offW : NavRec → Int := fun r => if mixed then lookupI T.weekOffset (asString (cellStr (sf r))) else 0
-  let toc : NavRec → Rat := fun r => epochSeconds mixed (epochOf r) + offS r
-  let inst : (NavRec → Rat) → NavRec → Cell := fun q r => Cell.time (towards (toc r) ((wkQ r + offW r) * week + (q r + offS r)))
-  fun k =>
-    if k = "transmission_time" then some (inst ttxQ)
-    else if k = "toe" then some (inst toeQ)
-    else if k = "gnss_week" then some fun r => Cell.num (wkQ r + offW r)
-    else if k = "time" then some fun r => Cell.time (toc r)
-    else sem k
 
 theorem zip_rows {β γ : Type} (rs : List NavRec) (f : NavRec → β) (g : NavRec → γ) :
     (rs.map f).zip (rs.map g) = rs.map fun r => (f r, g r) := List.zip_map'
@@ -1175,12 +1133,6 @@ theorem timeCorrection_rows (T : Tables) (fileSys : String) (rs : List NavRec) (
           exact h k
 
 /-! ### the columns after reading, as rows -/
-
-/-- the value record `r` prints for column `k` (`None` for a name no record feeds) -/
-def valD (r : NavRec) (k : String) : Cell := (valOf r k).getD .none
-
-/-- the columns after reading: column `k` holds `valD r k` for every supported record `r` -/
-def sem0 : String → Option (NavRec → Cell) := fun k => if k ∈ recordNames v3 then some (fun r => valD r k) else Option.none
 
 theorem valOf_isSome (r : NavRec) (k : String) (hk : k ∈ recordNames v3) : ∃ v, valOf r k = some v := by
   have hmem : k ∈ (kvOf r).map (·.1) := by rw [kvOf_keys]; exact hk
@@ -1232,10 +1184,6 @@ theorem rows_expected (items : List Item) (hne : supported items ≠ []) :
 
 /-! ### `_determine_message_type` and the whole post-processing -/
 
-/-- the LNAV test of one record: a GPS / QZSS record must carry an integral IODE -/
-def lnavRow (sf iodeF : NavRec → Cell) (r : NavRec) : Bool :=
-  !(cellStr (sf r) = ['G'] || cellStr (sf r) = ['J']) || ((cellNum (iodeF r)).map isIntegral).getD true
-
 theorem lnavOk_rows (rs : List NavRec) (d : Cols) (sem : String → Option (NavRec → Cell)) (sf iodeF : NavRec → Cell)
     (h : Rows rs d sem) (hs : sem "system" = some sf) (hi : sem "iode" = some iodeF) :
     lnavOk d = rs.all (lnavRow sf iodeF) := by
@@ -1244,11 +1192,6 @@ theorem lnavOk_rows (rs : List NavRec) (d : Cols) (sem : String → Option (NavR
   unfold lnavOk
   simp only [c1, c2, zip_rows, List.all_map]
   rfl
-
-/-- the per-record meaning of the whole RINEX 3 post-processing for a file of satellite system `fileSys` -/
-def postSem (fileSys : String) : String → Option (NavRec → Cell) :=
-  semTime v3 fileSys (semRename sem0 v3.sysnames) (fun r => Cell.str [r.sys])
-    (fun r => r.o3.a.val) (fun r => r.o7.a.val) (fun r => r.o5.c.val)
 
 theorem okRen_v3 : okRen sem0 v3.sysnames = true := by decide +kernel
 
@@ -1319,6 +1262,209 @@ theorem post_record_renamed (fs : String) :
 
 example : supported demoNav.items ≠ [] ∧ ["C", "E", "G", "I", "J", "M"].contains (asString [demoNav.satSys]) = true := by
   decide
+
+end Midgard.Props.C12
+
+namespace Midgard.Props.C12
+open Midgard.Text Midgard.RinexNav Midgard.Generated.RinexNav Midgard.Spec.RinexNavFile
+
+/-! ## 9. The RINEX 2.x post-processing, record by record -/
+
+/-- one round of `_rename_fields_based_on_system` of rinex2_nav / rinex212_nav -/
+def renStep2 (system : String) (d : Cols) (field : String) (per : List (String × String)) : Cols :=
+  match col d field with
+  | Option.none => d
+  | some vals =>
+    match per.find? (·.1 = system) with
+    | Option.none => delCol d field
+    | some (_, n) => if n = field then d else delCol (setCol d n vals) field
+
+theorem rename2_cons (field : String) (per : List (String × String)) (rest : SysNames) (system : String) (d : Cols) :
+    rename2 ((field, per) :: rest) system d = rename2 rest system (renStep2 system d field per) := by
+  rfl
+
+theorem renStep2_rows (rs : List NavRec) (d : Cols) (sem : String → Option (NavRec → Cell)) (system field : String)
+    (per : List (String × String)) (h : Rows rs d sem) :
+    Rows rs (renStep2 system d field per) (semStep2 sem system field per) := by
+  have hc := h field
+  unfold renStep2 semStep2
+  cases hsem : sem field with
+  | none =>
+    rw [hsem] at hc
+    simp only [Option.map_none] at hc
+    simp only [hc]
+    exact h
+  | some vf =>
+    rw [hsem] at hc
+    simp only [Option.map_some] at hc
+    simp only [hc]
+    cases hfind : per.find? (fun x => decide (x.1 = system)) with
+    | none =>
+      intro k
+      rw [col_delCol]
+      by_cases hk : k = field
+      · simp [hk]
+      · simp only [hk, if_false]; exact h k
+    | some sn =>
+      obtain ⟨s', n⟩ := sn
+      by_cases hn : n = field
+      · simp only [hn, if_true]; exact h
+      · simp only [hn, if_false]
+        intro k
+        rw [col_delCol, col_setCol]
+        by_cases hk : k = field
+        · simp [hk]
+        · by_cases hk2 : k = n
+          · subst hk2; simp [hk]
+          · simp only [hk, hk2, if_false]; exact h k
+
+theorem rename2_rows (rs : List NavRec) (system : String) : ∀ (names : SysNames) (d : Cols)
+    (sem : String → Option (NavRec → Cell)), Rows rs d sem →
+    Rows rs (rename2 names system d) (semRename2 sem system names) := by
+  intro names
+  induction names with
+  | nil => intro d sem h; exact h
+  | cons fp rest ih =>
+    obtain ⟨f, p⟩ := fp
+    intro d sem h
+    rw [rename2_cons]
+    exact ih _ _ (renStep2_rows rs d sem system f p h)
+
+/-- the columns the time correction and the LNAV test read are, after `rename2`, still the record's own values -/
+def Sem2Ok (T : Tables) (system : String) : Prop :=
+  semRename2 sem0 system T.sysnames "system" = some (fun r => Cell.str [r.sys]) ∧
+  semRename2 sem0 system T.sysnames "toe" = some (fun r => Cell.num r.o3.a.val) ∧
+  semRename2 sem0 system T.sysnames "transmission_time" = some (fun r => Cell.num r.o7.a.val) ∧
+  semRename2 sem0 system T.sysnames "gnss_week" = some (fun r => Cell.num r.o5.c.val) ∧
+  postSem2 T system "system" = some (fun r => Cell.str [r.sys]) ∧
+  postSem2 T system "iode" = some (fun r => Cell.num r.o1.a.val)
+
+theorem sem2Ok_all (T : Tables) (hT : T = v2 ∨ T = v212) (s : String) (hs : s ∈ ["C", "E", "G", "I", "J"]) : Sem2Ok T s := by
+  simp only [List.mem_cons, List.not_mem_nil, or_false] at hs
+  rcases hT with rfl | rfl <;> rcases hs with rfl | rfl | rfl | rfl | rfl <;> exact ⟨rfl, rfl, rfl, rfl, rfl, rfl⟩
+
+theorem post_record_v2_of (T : Tables) (system : String) (hok : Sem2Ok T system) (items : List Item)
+    (hne : supported items ≠ []) (hfs : ["C", "E", "G", "I", "J", "M"].contains system = true) :
+    ∃ d, Rows (supported items) d (postSem2 T system) ∧
+      postV2 T system (expectedState items) =
+        if (supported items).all (lnavRow (fun r => Cell.str [r.sys]) (fun r => Cell.num r.o1.a.val)) then some d
+        else Option.none := by
+  obtain ⟨h1, h2, h3, h4, h5, h6⟩ := hok
+  have h0 := rows_expected items hne
+  have hr1 := rename2_rows (supported items) system T.sysnames (expectedData items) sem0 h0
+  obtain ⟨d2, hd2, hr2⟩ := timeCorrection_rows T system (supported items) _ (semRename2 sem0 system T.sysnames)
+    (fun r => Cell.str [r.sys]) (fun r => r.o3.a.val) (fun r => r.o7.a.val) (fun r => r.o5.c.val) hr1 hfs h1 h2 h3 h4
+  refine ⟨d2, hr2, ?_⟩
+  have hdata : (expectedData items).isEmpty = false := by
+    have := h0 "system"
+    cases hd : expectedData items with
+    | nil => rw [hd] at this; simp [col, sem0, recordNames] at this
+    | cons _ _ => rfl
+  have hl := lnavOk_rows (supported items) d2 (postSem2 T system) _ _ hr2 h5 h6
+  unfold postV2
+  simp only [expectedState, hdata, Bool.false_eq_true, if_false, hd2, hl, Option.bind_eq_bind, Option.bind_some,
+    Option.pure_def]
+
+/-- **post_record_v2**: the RINEX 2.x post-processing (`rename2` for the one system of the file, time-system correction,
+LNAV test; both 2.x tables, every supported system) returns columns whose row `i` is `postSem2 T system k` of record `i`
+alone — or refuses the file exactly when a GPS / QZSS record has a non-integral IODE -/
+theorem post_record_v2 (T : Tables) (hT : T = v2 ∨ T = v212) (system : String) (hs : system ∈ ["C", "E", "G", "I", "J"])
+    (items : List Item) (hne : supported items ≠ []) :
+    ∃ d, Rows (supported items) d (postSem2 T system) ∧
+      postV2 T system (expectedState items) =
+        if (supported items).all (lnavRow (fun r => Cell.str [r.sys]) (fun r => Cell.num r.o1.a.val)) then some d
+        else Option.none := by
+  refine post_record_v2_of T system (sem2Ok_all T hT system hs) items hne ?_
+  simp only [List.mem_cons, List.not_mem_nil, or_false] at hs
+  rcases hs with rfl | rfl | rfl | rfl | rfl <;> decide
+
+/-- RINEX 2.x GPS files: the general columns carry the GPS names (`tgd`, `iodc`, `codes_l2`, `l2p_flag`, `fit_interval`),
+no other specific name appears, and nothing is shifted -/
+theorem post_record_v2_gps (T : Tables) (hT : T = v2 ∨ T = v212) :
+    postSem2 T "G" "gnss_tgd_bgd" = Option.none ∧
+    postSem2 T "G" "tgd" = some (fun r => Cell.num r.o6.c.val) ∧
+    postSem2 T "G" "bgd_e1_e5a" = Option.none ∧
+    postSem2 T "G" "gnss_week" = some (fun r => Cell.num (r.o5.c.val + ((0 : Int) : Rat))) := by
+  rcases hT with rfl | rfl <;> exact ⟨rfl, rfl, rfl, rfl⟩
+
+/-- the executable form the driver evaluates (`postRows3` / `postRows2` → `semCols`) holds, under every name of its key
+list, exactly the rows of `post_record` / `post_record_v2` -/
+theorem col_semCols (sem : String → Option (NavRec → Cell)) (rs : List NavRec) (k : String) : ∀ (keys : List String),
+    col (semCols keys sem rs) k = if k ∈ keys then (sem k).map (fun f => rs.map f) else Option.none := by
+  intro keys
+  induction keys with
+  | nil => rfl
+  | cons k0 ks ih =>
+    unfold semCols at ih ⊢
+    by_cases h0 : k0 = k
+    · subst h0
+      cases hs : sem k0 with
+      | none =>
+        simp only [List.filterMap_cons, hs, Option.map_none, ih, List.mem_cons, true_or, if_true]
+        split <;> rfl
+      | some f => simp [hs, col]
+    · have h0' : ¬ k = k0 := fun e => h0 e.symm
+      cases hs : sem k0 with
+      | none => simp only [List.filterMap_cons, hs, Option.map_none, ih, List.mem_cons, h0', false_or]
+      | some f => simp only [List.filterMap_cons, hs, Option.map_some, col, h0, if_false, ih, List.mem_cons, h0', false_or]
+
+end Midgard.Props.C12
+
+namespace Midgard.Props.C12
+open Midgard.Text Midgard.RinexNav Midgard.Generated.RinexNav Midgard.Spec.RinexNavFile
+
+theorem mem_dedupS (k : String) : ∀ (l : List String), k ∈ dedupS l ↔ k ∈ l := by
+  intro l
+  induction l with
+  | nil => simp [dedupS]
+  | cons a rest ih =>
+    simp only [dedupS, List.mem_cons, List.mem_filter, ih, ne_eq, decide_not, Bool.not_eq_true', decide_eq_false_iff_not]
+    constructor
+    · rintro (h | ⟨h, _⟩)
+      · exact Or.inl h
+      · exact Or.inr h
+    · rintro (h | h)
+      · exact Or.inl h
+      · by_cases e : k = a
+        · exact Or.inl e
+        · exact Or.inr ⟨h, e⟩
+
+theorem semRename_other (k : String) : ∀ (names : SysNames) (sem : String → Option (NavRec → Cell)),
+    (∀ fp ∈ names, k ≠ fp.1 ∧ k ∉ fp.2.map (·.2)) → semRename sem names k = sem k := by
+  intro names
+  induction names with
+  | nil => intro sem _; rfl
+  | cons fp rest ih =>
+    obtain ⟨f, p⟩ := fp
+    intro sem h
+    have h1 := h (f, p) (by simp)
+    show semRename (semStep sem f p) rest k = sem k
+    rw [ih _ (fun fp' hfp => h fp' (by simp [hfp]))]
+    unfold semStep
+    simp only [h1.1, if_false, h1.2]
+
+/-- **no stray column**: a name outside the key list the driver evaluates (`outKeys v3`: the record's 38 names, the
+eleven system-specific names, `time`) is not a column of the post-processed data, whatever the records -/
+theorem post_record_keys (fs k : String) (hk : ¬ k ∈ outKeys v3) : postSem fs k = Option.none := by
+  unfold outKeys at hk
+  rw [mem_dedupS] at hk
+  simp only [List.mem_append, not_or] at hk
+  obtain ⟨⟨hrec, hspec⟩, htime⟩ := hk
+  have hfields : ∀ fp ∈ v3.sysnames, fp.1 ∈ recordNames v3 := by decide +kernel
+  have h4 : "transmission_time" ∈ recordNames v3 ∧ "toe" ∈ recordNames v3 ∧ "gnss_week" ∈ recordNames v3 := by decide +kernel
+  have k1 : ¬ k = "transmission_time" := fun e => hrec (e ▸ h4.1)
+  have k2 : ¬ k = "toe" := fun e => hrec (e ▸ h4.2.1)
+  have k3 : ¬ k = "gnss_week" := fun e => hrec (e ▸ h4.2.2)
+  have k4 : ¬ k = "time" := by simpa using htime
+  unfold postSem semTime
+  simp only [k1, k2, k3, k4, if_false]
+  rw [semRename_other k v3.sysnames sem0 (by
+    intro fp hfp
+    refine ⟨fun e => hrec (e ▸ hfields fp hfp), fun hm => hspec ?_⟩
+    simp only [List.mem_flatMap]
+    exact ⟨fp, hfp, hm⟩)]
+  unfold sem0
+  simp [hrec]
 
 end Midgard.Props.C12
 
@@ -1438,3 +1584,14 @@ end Midgard.Props.C12
 #print axioms Midgard.Props.C12.post_record
 #print axioms Midgard.Props.C12.post_record_beidou
 #print axioms Midgard.Props.C12.post_record_renamed
+#print axioms Midgard.Props.C12.rename2_cons
+#print axioms Midgard.Props.C12.renStep2_rows
+#print axioms Midgard.Props.C12.rename2_rows
+#print axioms Midgard.Props.C12.sem2Ok_all
+#print axioms Midgard.Props.C12.post_record_v2_of
+#print axioms Midgard.Props.C12.post_record_v2
+#print axioms Midgard.Props.C12.post_record_v2_gps
+#print axioms Midgard.Props.C12.col_semCols
+#print axioms Midgard.Props.C12.mem_dedupS
+#print axioms Midgard.Props.C12.semRename_other
+#print axioms Midgard.Props.C12.post_record_keys
